@@ -823,6 +823,61 @@ def _use_reachable(prog) -> set:
     return seen
 
 
+def _is_keyed_memo(m, node) -> bool:
+    """self.<table>[key] = value where the value is computed from nothing but what the key is computed from (and
+    never from the table's own earlier content): a lookup table filled on demand.  A counter or an accumulator
+    (value derived from the table itself) is not one."""
+    if not (isinstance(node, ast.Assign) and len(node.targets) == 1 and isinstance(node.targets[0], ast.Subscript)):
+        return False
+    t = node.targets[0]
+    if not (isinstance(t.value, ast.Attribute) and isinstance(t.value.value, ast.Name) and t.value.value.id == m.self_name):
+        return False
+    table = t.value.attr
+    defs = {}
+    for st in walk_no_nested(m.node):
+        if isinstance(st, ast.Assign) and len(st.targets) == 1 and isinstance(st.targets[0], ast.Name):
+            defs.setdefault(st.targets[0].id, []).append(st.value)
+
+    def reads_table(e):
+        return any(isinstance(x, ast.Attribute) and x.attr == table and isinstance(x.value, ast.Name) and x.value.id == m.self_name for x in ast.walk(e))
+
+    def local_uses(e):
+        return {x.id for x in ast.walk(e) if isinstance(x, ast.Name) and (x.id in defs or x.id in {p.name for p in m.params}) and x.id != m.self_name}
+
+    def self_reads(e):
+        return {x.attr for x in ast.walk(e) if isinstance(x, ast.Attribute) and isinstance(x.value, ast.Name) and x.value.id == m.self_name and x.attr != table}
+
+    key_uses, key_self = set(local_uses(t.slice)), set(self_reads(t.slice))
+    for _ in range(3):
+        for n_ in list(key_uses):
+            for d in defs.get(n_, []):
+                key_uses |= local_uses(d)
+                key_self |= self_reads(d)
+    # the value: through its local definitions, lookups of the same table (the miss that precedes the store) aside
+    val_uses, val_self = set(), set()
+    todo = [node.value]
+    seen = set()
+    while todo:
+        e = todo.pop()
+        if reads_table(e):
+            if isinstance(e, ast.Call) and isinstance(e.func, ast.Attribute) and e.func.attr == "get" and reads_table(e.func.value) and len(e.args) == 1:
+                continue  # `v = self.table.get(key)`: the lookup whose miss leads here
+            return False
+        val_self |= self_reads(e)
+        for n_ in local_uses(e):
+            if n_ in seen:
+                continue
+            seen.add(n_)
+            if n_ in key_uses:
+                val_uses.add(n_)
+                continue
+            ds = defs.get(n_)
+            if not ds:
+                return False  # a parameter (or loop variable) the key does not capture
+            todo.extend(ds)
+    return val_self <= key_self
+
+
 def check_state_writers(ctx: Ctx):
     prog = ctx.prog
     roots = [prog.cls("utils.config:SupportsConfig")]
@@ -885,6 +940,10 @@ def check_state_writers(ctx: Ctx):
                     # (evaluating, constructing other objects, saving) nothing calls it
                     n += 1
                     ctx.ok("R15.6", m, node, f"{m.qual}:self.{hit.attr}", "state is changed only by the constructor, setters, and editing methods that no evaluation / save / load path calls", {"stmt": norm(node)[:80], "reason": "editing method outside every evaluation path"}, nontrivial=False)
+                    continue
+                if hit is not None and _is_keyed_memo(m, node):
+                    n += 1
+                    ctx.ok("R15.6", m, node, f"{m.qual}:self.{hit.attr}", "a lookup table filled on demand: the stored value is computed from what its key is computed from, never from the table's earlier content", {"stmt": norm(node)[:80], "reason": "keyed memo"}, nontrivial=False)
                     continue
                 if hit is not None:
                     n += 1
